@@ -24,6 +24,27 @@ Theorem C16_svd_valid : forall (R : Type) (RR : Ring R) (CR : CRing R) (FF : Fie
 Proof. intros R RR CR FF. exact (svd_valid (R:=R)). Qed.
 Print Assumptions C16_svd_valid.
 
+(* any selection idx of distinct positions of the oracle's decomposition (the repaired rules slice with get_slice(k, which)):
+   orthonormal columns, non-negative Sigma and singular triplets A V' = U' Sigma'; a permutation of all positions gives A *)
+Theorem C16_svd_take_partial : forall (R : Type) (RR : Ring R) (CR : CRing R) (FF : Field R) (nonneg : R -> Prop) m n r (A U : fm (R:=R)) s V idx,
+  SvdSpec nonneg m n r A U s V -> NoDup idx -> (forall x, In x idx -> (x < r)%nat) ->
+  let o := svd_take idx U s V in
+  orthocols m (sk o) (sU o) /\ orthocols n (sk o) (sV o) /\ (forall j, (j < sk o)%nat -> nonneg (sS o j)) /\
+  feq m (sk o) (mmul n A (sV o)) (fun i j => rmul (sU o i j) (sS o j)).
+Proof. intros R RR CR FF. exact (svd_take_partial (R:=R)). Qed.
+Print Assumptions C16_svd_take_partial.
+Theorem C16_svd_take_all : forall (R : Type) (RR : Ring R) (CR : CRing R) (FF : Field R) (nonneg : R -> Prop) m n r (A U : fm (R:=R)) s V idx,
+  SvdSpec nonneg m n r A U s V -> Permutation.Permutation idx (seq 0 r) ->
+  let o := svd_take idx U s V in sk o = r /\ SvdValid nonneg m n A o.
+Proof. intros R RR CR FF. exact (svd_take_all (R:=R)). Qed.
+Print Assumptions C16_svd_take_all.
+(* repaired Diagonal rule (signs / phases moved into U): it starts from a valid decomposition of diag(d) *)
+Theorem C16_svd_diag_signed : forall (R : Type) (RR : Ring R) (CR : CRing R) (FF : Field R) (nonneg : R -> Prop) n (d ab ph : nat -> R),
+  (forall i, (i < n)%nat -> d i = rmul (ph i) (ab i) /\ rmul (conj (ph i)) (ph i) = r1 /\ nonneg (ab i)) ->
+  SvdSpec nonneg n n n (dg d) (dg ph) ab eye.
+Proof. intros R RR CR FF. exact (svd_diag_signed_spec (R:=R)). Qed.
+Print Assumptions C16_svd_diag_signed.
+
 (* Lanczos / LOBPCG rule: from orthonormal eigenpairs (lam, W) of A^H A and "square roots" s (s*s = lam, real, non-zero)
    of the selected eigenvalues: V = W[:, idx] and U = A V Sigma^-1 have orthonormal columns and are singular triplets,
    U Sigma = A V, so U Sigma V^H V = A V (the rank-k part of A on span V).
@@ -128,6 +149,16 @@ Theorem C16_svd_dense_k_ignored_refuted :
   let o := svd_dense qi_leb 2 eye (vecl [qz 1; qz 2]) eye in sk o = 2%nat.
 Proof. exact svd_dense_k_ignored_refuted. Qed.
 Print Assumptions C16_svd_dense_k_ignored_refuted.
+Theorem C16_svd_diag_signed_repaired :
+  let o := svd_diag_signed [0%nat; 1%nat] (vecl [qz 1; qz 2]) (vecl [qz (-1); qz 1]) in
+  qi_eqb (sS o 0%nat) (qz 1) = true /\ qi_eqb (sU o 0%nat 0%nat) (qz (-1)) = true /\
+  feqb 2 2 (fun i j => sum 2 (fun l => qimul (qimul (sU o i l) (sS o l)) (qiconj (sV o j l)))) (dg (vecl [qz (-1); qz 2])) = true.
+Proof. exact svd_diag_signed_repaired. Qed.
+Print Assumptions C16_svd_diag_signed_repaired.
+Theorem C16_svd_dense_k_repaired :
+  exists o, svd_dense_k qi_leb 2 eye (vecl [qz 1; qz 2]) eye 1 LM = Some o /\ sk o = 1%nat /\ qi_eqb (sS o 0%nat) (qz 2) = true.
+Proof. exact svd_dense_k_repaired. Qed.
+Print Assumptions C16_svd_dense_k_repaired.
 Example C16_example_perm : feqb 3 3 (mmul 3 (fun i j => delta (nth i [2;0;1]%nat 0%nat) j) (pinv_perm (inv_perm 3 [2;0;1]%nat))) eye = true.
 Proof. exact pinv_perm_example. Qed.
 Print Assumptions C16_example_perm.
